@@ -268,3 +268,99 @@ Contract(
     note='C14.base.post: with skip_brute exactly the structures without an M token, each probability divided by 1 - P(M) '
          '(1 when there is no M line); C03.loader.c_insertion',
 )
+
+
+# ================================================================== _load_from_file: grouping of consecutive equal probabilities
+from contracts.guesser_core import GROUP, GLIST     # noqa: E402
+
+fv = T.fval
+
+
+def lv(L, k):
+    return F0(line_at(L, k))
+
+
+def lp(L, k):
+    return B.s_tofloat(F1(line_at(L, k)))
+
+
+def _groups_def(L, k):
+    prev = Groups(L, k - 1)
+    n = GLIST.len(prev)
+    last = z3.Select(GLIST.arr(prev), n - 1)
+    vals = GROUP.get(last, 'values')
+    grown_vals = LSTR.mk(LSTR.len(vals) + 1, z3.Store(LSTR.arr(vals), LSTR.len(vals), lv(L, k - 1)))
+    merged = GLIST.mk(n, z3.Store(GLIST.arr(prev), n - 1, GROUP.mk(prob=GROUP.get(last, 'prob'), values=grown_vals)))
+    one = LSTR.mk(z3.IntVal(1), z3.Store(LSTR.arr(empty_list(LSTR)), 0, lv(L, k - 1)))
+    fresh_group = GLIST.mk(n + 1, z3.Store(GLIST.arr(prev), n, GROUP.mk(prob=lp(L, k - 1), values=one)))
+    same = z3.And(k >= 2, fv(lp(L, k - 1)) == fv(lp(L, k - 2)))
+    return z3.If(k <= 0, empty_list(GLIST), z3.If(same, merged, fresh_group))
+
+
+Groups = SpecFun('Groups', [LINES.sort(), T.IntS], GLIST.sort(), _groups_def,
+                 doc='the groups built from the first k lines: consecutive lines with equal probability share one group')
+
+
+def wf_value_lines(L):
+    k = z3.Int('k!wv')
+    line = line_at(L, k)
+    return z3.ForAll([k], z3.Implies(z3.And(0 <= k, k < LINES.len(L)),
+                                     z3.And(LSTR.len(fields(line)) >= 2, B.s_isfloat(F1(line)), fv(B.s_tofloat(F1(line))) >= 0)),
+                     patterns=[z3.Select(LINES.arr(L), k)])
+
+
+def _lff_inv(L):
+    lines = B.fs_lines(L.entry.args['filename'].term)
+    gs = L.grammar_section.term
+    i = L.i
+    last = z3.Select(GLIST.arr(gs), GLIST.len(gs) - 1)
+    return [('groups_prefix', gs == Groups(lines, i)),
+            ('prev_prob', z3.If(i == 0, fv(L.prev_prob.term) == -1, L.prev_prob.term == lp(lines, i - 1))),
+            ('no_error_pending', z3.Not(L.error_flag.term)),
+            ('nonempty_after_first', z3.Implies(i >= 1, z3.And(GLIST.len(gs) >= 1, GROUP.get(last, 'prob') == lp(lines, i - 1)))),
+            ('len_nonneg', GLIST.len(gs) >= 0)]
+
+
+def _lff_post_ok(c):
+    if not (isinstance(c.result, ZV) and c.result.shape == TBool) or c.result.pyval is False:
+        return None
+    lines = B.fs_lines(c.filename.term)
+    return [('grouped_values', c.after['grammar_section'].term == Groups(lines, LINES.len(lines)))]
+
+
+def _lff_post_fail(c):
+    if not (isinstance(c.result, ZV) and c.result.shape == TBool) or c.result.pyval is True:
+        return None
+    return [('reported', z3.BoolVal(True))]
+
+
+Contract(
+    GIO + ':_load_from_file',
+    params={'grammar_section': GLIST, 'filename': TStr, 'encoding': TStr},
+    requires=lambda c: [('empty_target', c.grammar_section.term == empty_list(GLIST)),
+                        ('wf_lines', wf_value_lines(B.fs_lines(c.filename.term)))],
+    cases=[Case('loaded', lambda c: zbool(True), _lff_post_ok), Case('failed', lambda c: zbool(False), _lff_post_fail)],
+    mutates=('grammar_section',),
+    loops={0: LoopSpec(fingerprint='for line in file', inv=_lff_inv)},
+    note='C07 reader / C04.group_same_prob: every line contributes its value unchanged; consecutive lines with equal probability form one group '
+         'carrying that probability',
+)
+
+
+# groups of a file sorted by probability are strictly decreasing (C01.load.groups_desc)
+def _groups_desc(L, k):
+    i, j, m = z3.Ints('i!gd j!gd m!gd')
+    g = Groups(L, k)
+    n = GLIST.len(g)
+    sorted_lines = z3.ForAll([i, j], z3.Implies(z3.And(0 <= i, i <= j, j < LINES.len(L)), fv(lp(L, j)) <= fv(lp(L, i))),
+                             patterns=[z3.MultiPattern(line_at(L, i), line_at(L, j))])
+    hyps = [0 <= k, k <= LINES.len(L), sorted_lines]
+    gp = lambda t: fv(GROUP.get(z3.Select(GLIST.arr(g), t), 'prob'))
+    concl = z3.And(n >= 0, z3.Implies(k >= 1, z3.And(n >= 1, GROUP.get(z3.Select(GLIST.arr(g), n - 1), 'prob') == lp(L, k - 1))),
+                   z3.ForAll([m], z3.Implies(z3.And(0 <= m, m + 1 < n), gp(m + 1) < gp(m)), patterns=[z3.Select(GLIST.arr(g), m)]),
+                   z3.ForAll([m], z3.Implies(z3.And(0 <= m, m < n), gp(m) >= fv(lp(L, k - 1))), patterns=[z3.Select(GLIST.arr(g), m)]))
+    return hyps, concl
+
+
+groups_desc = Schema('C01.load.groups_desc', [('L', LINES.sort()), ('k', T.IntS)], _groups_desc, induction='k',
+                     doc='a file whose probabilities are non-increasing yields strictly decreasing group probabilities')
